@@ -634,7 +634,20 @@ def check_c06(ctx, cov):
     src = [recs[jj][-1] for jj in sorted(recs) if jmap[jj].split()[3] == 'ovmb' and jmap[jj].split()[2] in {m.name for m in small}]
     cp = os.path.join(ctx.work, 'corpus-writes.ndjson')
     open(cp, 'w').write('\n'.join(src) + '\n')
-    g = run_gen('enc', cp, ctx.work, pairs=(ctx.tier == 'thorough'))
+    # the generator is single threaded: one TLC per slice of the corpus, in parallel
+    nsl = min(8, NPAR, len(src))
+    def gen_slice(k):
+        idx = list(range(k, len(src), nsl))
+        sp = os.path.join(ctx.work, 'corpus-writes-%d.ndjson' % k)
+        open(sp, 'w').write('\n'.join(src[i] for i in idx) + '\n')
+        gk = run_gen('enc', sp, ctx.work, pairs=(ctx.tier == 'thorough'))
+        for e in gk['enc']:
+            e['src'] = idx[e['src'] - 1] + 1
+        return gk
+    t0g = time.time()
+    with ThreadPoolExecutor(max_workers=nsl) as ex:
+        gs = list(ex.map(gen_slice, range(nsl)))
+    g = dict(enc=[e for gk in gs for e in gk['enc']], bad=[b for gk in gs for b in gk['bad']], wall=time.time() - t0g)
     cov['encodings_generated'] = len(g['enc'])
     cov['gen_enc_wall_s'] = round(g['wall'], 1)
     for b in g['bad']:
